@@ -465,6 +465,17 @@ fn gen_cases(tier: Tier) -> Vec<Case> {
             v.push(Case { family: "depth/flat-clip-chain".into(), doc, cfg, expect: Some(n as usize + 2), unasserted: false, param: n as i64, limit: l as i64 });
         }
     }
+    // a limit set by a LATER <config> does not apply to an element written before it, also when that element waits
+    // for a forward reference (and a limit lifted later does not excuse it)
+    for (name, body, expect) in [
+        ("loop-limit-lowered-later", "<loop count=\"5\"><rect xy=\"#z|h\" wh=\"1\"/></loop><config loop-limit=\"2\"/><rect id=\"z\" wh=\"1\"/>", Some(6usize)),
+        ("loop-limit-lifted-later", "<config loop-limit=\"3\"/><loop count=\"5\"><rect xy=\"#z|h\" wh=\"1\"/></loop><config loop-limit=\"2000\"/><rect id=\"z\" wh=\"1\"/>", None),
+        ("depth-limit-lowered-later", "<g><g><rect xy=\"#z|h\" wh=\"1\"/></g></g><config depth-limit=\"2\"/><rect id=\"z\" wh=\"1\"/>", Some(2)),
+        ("var-limit-lowered-later", "<g q=\"abcdef\"><rect xy=\"#z|h\" wh=\"1\"/></g><config var-limit=\"2\"/><rect id=\"z\" wh=\"1\"/>", Some(2)),
+        ("control-no-forward-reference", "<loop count=\"5\"><rect wh=\"1\"/></loop><config loop-limit=\"2\"/><rect id=\"z\" wh=\"1\"/>", Some(6)),
+    ] {
+        v.push(Case { family: format!("deferred-config/{name}"), doc: body.to_string(), cfg: Cfg::plain(), expect, unasserted: false, param: 5, limit: 2 });
+    }
     // the _ / __ comment attributes are not variables
     for via in [false, true] {
         for holder in ["<g _=\"@\"><rect wh=\"1\"/></g>", "<g __=\"@\"><rect wh=\"1\"/></g>", "<specs><rect id=\"t\" wh=\"1\"/></specs><reuse href=\"#t\" _=\"@\"/>", "<rect wh=\"1\" _=\"@\"/>", "<var _=\"@\" a=\"1\"/><rect wh=\"1\"/>"] {
